@@ -887,6 +887,21 @@ def fam_bulk(cfg, rng):
     return h
 
 
+def fam_bulk_via(cfg, rng):
+    """bulk updates whose map was filled through `UpdateMap::get_mut_with` or `get_cow_with` + `into_mut` (the two other
+    public ways of putting a value into an update map) instead of `insert`"""
+    h = fam_bulk(cfg, rng)
+    h.family = 'bulk_via'
+    how = rng.choice(['mut', 'cow'])
+    for k, o in enumerate(h.ops):
+        if o.startswith('bulk h0 '):
+            h.ops[k] = 'bulk_via h0 %s %s' % (how, o.split(' ', 2)[2])
+            break
+    h.emit('len h0')
+    h.emit('iter_from h0 0')
+    return h
+
+
 def fam_codec(cfg, rng):
     h = H(cfg, rng, 'codec')
     n = rng.randint(0, h.maxlen(12))
@@ -1213,7 +1228,7 @@ FAMILIES = {
     'rebase_pairs': fam_rebase_pairs, 'intra': fam_intra, 'suffix': fam_suffix,
     'capacity': fam_capacity, 'bulk': fam_bulk, 'codec': fam_codec, 'invalid_args': fam_invalid,
     'builder': fam_builder, 'builder_nodes': fam_builder_nodes, 'big': fam_big, 'deep': fam_deep, 'par': fam_par, 'cost': fam_cost, 'fault': fam_fault,
-    'eq_stable': fam_eq_stable, 'roundtrip': fam_roundtrip,
+    'eq_stable': fam_eq_stable, 'roundtrip': fam_roundtrip, 'bulk_via': fam_bulk_via,
 }
 
 
